@@ -212,7 +212,6 @@ func pluginSchema(s *Script, src string) *schema.CallableSchema {
 		case <-ctx.Done():
 			return finish("cancelled", out)
 		case <-cancelCh:
-			s.add("cancel-signal", src, "", "", nil)
 			return finish("cancelled", out)
 		}
 		switch b.Outcome {
@@ -233,7 +232,10 @@ func pluginSchema(s *Script, src string) *schema.CallableSchema {
 			"op", opInputSchema(), opOutputs(),
 			map[string]schema.CallableSignal{
 				plugin.CancellationSignalSchema.ID(): schema.NewCallableSignalFromSchema(plugin.CancellationSignalSchema,
-					func(_ context.Context, d *opData, _ plugin.CancelInput) { d.cancel <- true }),
+					func(_ context.Context, d *opData, _ plugin.CancelInput) {
+						s.add("cancel-signal", src, "", "", nil)
+						d.cancel <- true
+					}),
 			},
 			map[string]*schema.SignalSchema{}, nil,
 			func() *opData { return &opData{cancel: make(chan bool, 3)} },
